@@ -85,3 +85,28 @@ Qed.
 Example ex_proceed : validate vcfg_now HGet
   {| sh_name := NOk; sh_exists := true; sh_keys := KOk; sh_kvnil := false; sh_by0 := false; sh_key_empty := false; sh_id_empty := false; sh_wkey_empty := false; sh_wkey_long := false |} = Proceed.
 Proof. reflexivity. Qed.
+
+(* ---- requests with several entries ---- *)
+(* Two-pass validation: when the request is answered with a rejection, no entry has been executed -
+   whatever the position of the malformed entry - and the system lock is released. *)
+Theorem rejected_many_no_side_effect : forall c h shs,
+  existsb is_reject_ret (run_many c h shs) = true ->
+  existsb is_summon (run_many c h shs) = false /\ existsb is_begin (run_many c h shs) = false /\
+  safeops_delta (run_many c h shs) = 0.
+Proof.
+  intros c h shs H. unfold run_many in *. destruct (validate_many c h shs) as [e wr| |].
+  - cbn. repeat split; reflexivity.
+  - exfalso. cbn in H. rewrite existsb_app in H. apply orb_true_iff in H as [H|H]; [|cbn in H; discriminate].
+    unfold exec_entries in H. induction (seq 0 (length shs)) as [|x t IH]; cbn in H; [discriminate|exact (IH H)].
+  - cbn in H. discriminate.
+Qed.
+
+(* ... which a single-pass handler does not give: a valid entry followed by a malformed one is
+   executed before the request is rejected. *)
+Definition ok_shape : shape :=
+  {| sh_name := NOk; sh_exists := true; sh_keys := KOk; sh_kvnil := false; sh_by0 := false;
+     sh_key_empty := false; sh_id_empty := false; sh_wkey_empty := false; sh_wkey_long := false |}.
+Theorem single_pass_refuted :
+  existsb is_reject_ret (run_many_single_pass vcfg_now HSet [ok_shape; short_shape]) = true /\
+  existsb is_summon (run_many_single_pass vcfg_now HSet [ok_shape; short_shape]) = true.
+Proof. vm_compute. split; reflexivity. Qed.
